@@ -112,7 +112,7 @@ var spec = &hx.Spec[Case]{
 		"every chunk a session returned is held and consumed later (at generated points and after the history) through a compressed and an uncompressed HTTP chunk server, a cache writing to a compressed LocalStore and an uncompressed LocalStore. " +
 		"(sshpool) one RemoteSSH store over a pool of n in 1..3 in-process casync sessions (stand-in peer that keeps the session open after MISSING): history of <= 12 GetChunk/HasChunk for chunks answered present/missing/invalid/garbage/abort/dead-peer, issued sequentially or by 2..4 goroutines, then 1..4 further sequential requests and Close; fixed cases n x failing answer x {sequential, 3 goroutines} with n+1 failures before a present chunk. " +
 		"(pull) child process `desync --config <cfg> pull - - - <store>` over pipes, client side desync.Protocol: config in {no entry, uncompressed entry keyed by the served path, uncompressed entry keyed by another path, compressed entry} x 1..4 chunks held in the configured format / the other format / both / neither / corrupt x <= 5 requests (fresh child after every answer that is not a chunk); about 1 case in 80 plus 4 fixed cases. " +
-		"(srvproc) child process `desync chunk-server|index-server -s <gated upstream HTTP store of the harness> -l <addr> -e 0 [--log <file>|-] [-u] [--skip-verify-read=false]`: 2..4 objects present/missing/failing upstream, 2..4 GET/HEAD client requests started so that all overlap inside the server (each after the previous one's upstream request has arrived), upstream answers released in a generated order; about 1 case in 30. " +
+		"(srvproc) child process `desync chunk-server|index-server -s <gated upstream HTTP store of the harness> -l <addr> -e 0 [--log <file>|-] [-u] [--skip-verify-read=false]`: 2..4 objects present/missing/failing upstream, 2..4 GET/HEAD client requests started so that all overlap inside the server (each after the previous one's upstream request has arrived), upstream answers released in a generated order; for a chunk server in 1 case of 3 preceded by an upload phase (-w): a chunk the upstream lacks is PUT (right content, or a well-formed transfer form of other data) and a GET of the same ID is made while the upload's upstream PUT is held; about 1 case in 30. " +
 		"non-trivial = matrix case in which compression settings differ between at least two of the three hops, script with >= 1 transient failure followed by a terminal response within the attempts made, " +
 		"index history touching a present and an absent name, protocol history with a present and a non-present request, a broken connection, or a held chunk followed on its session by a different reply that is not larger, ssh pool history with more failing answers than sessions, pull case whose config names an uncompressed store; distinct by configuration + history shape",
 	Assumptions: []string{
@@ -148,7 +148,7 @@ var spec = &hx.Spec[Case]{
 		"script:m:getchunk", "script:m:haschunk", "script:m:storechunk", "script:m:getindex", "script:m:storeindex",
 		"proto:present", "proto:missing", "proto:corrupt", "proto:break:close", "proto:break:cut", "proto:store:mem", "proto:store:local", "proto:store:local-unc",
 		"mode:srvproc", "srvproc:chunk", "srvproc:index", "srvproc:all-requests-overlapped", "srvproc:overlapped:log-on", "srvproc:log=off", "srvproc:log=file", "srvproc:log=stdout", "srvproc:server-converts",
-		"srvproc:state:present", "srvproc:state:missing", "srvproc:state:failing",
+		"srvproc:state:present", "srvproc:state:missing", "srvproc:state:failing", "srvproc:upload:mislabelled", "srvproc:upload:valid", "srvproc:upload:read-went-upstream",
 		"mode:pull", "pull:config-default", "pull:config-uncompressed", "pull:config-other-path", "pull:config-compressed-entry",
 		"pull:present", "pull:missing", "pull:other-format-only", "pull:corrupt",
 		"pull:have:both-formats", "pull:have:configured-format-only", "pull:have:other-format-only", "pull:have:none", "pull:have:corrupt",
